@@ -51,11 +51,14 @@ CHECKS = {'C18': checks_stateless.c18, 'C13': checks_history.c13, 'C20': checks_
 def setup():
     """SANY-parse every module and run the unit-test modules (model regression)."""
     rc = 0
-    for path in sorted(glob.glob(os.path.join(tlc.SPEC, '*.tla'))):
-        ok, out = tlc.sany(os.path.basename(path))
-        if not ok:
-            print('SANY failed on %s\n%s' % (path, out[-2000:]))
-            rc = 2
+    from concurrent.futures import ThreadPoolExecutor
+    paths = sorted(glob.glob(os.path.join(tlc.SPEC, '*.tla')))
+    with ThreadPoolExecutor(max_workers=8) as ex:
+        for path, (ok, out) in zip(paths, ex.map(lambda p: tlc.sany(os.path.basename(p)), paths)):
+            if not ok:
+                print('SANY failed on %s\n%s' % (path, out[-2000:]))
+                rc = 2
+    print('SANY: %d modules parsed' % len(paths))
     for path in sorted(glob.glob(os.path.join(tlc.SPEC, 'tests', 'Test*.tla'))):
         name = os.path.basename(path)[:-4]
         for ext in ('.tla', '.cfg'):
